@@ -105,7 +105,7 @@ def check_c06(prop, tier, seed):
     pl = OrcaPipeline(run, ["ReplyOK", "RefEq", "TTL"])
     exe = run.build_harness()
     # (1) sequential equivalence with a direct connection
-    n, ln = (40, 60) if quick else (400, 120)
+    n, ln = (40, 60) if quick else (1500, 150)
     jobs = []
     for i, mode in enumerate(("batched", "std")):
         out = run.path("hs-%s.ndjson" % mode)
@@ -117,10 +117,10 @@ def check_c06(prop, tier, seed):
     # (2) concurrent callers over the option grid
     grid = [(1, 50), (2, 250), (10, 250), (10, 5000)] if quick else [(b, d) for b in (1, 2, 3, 10) for d in (50, 250, 5000)]
     callers = [3, 8, 16, 33] if quick else [1, 2, 5, 8, 16, 33, 64]
-    outs = run_pool(run, exe, "calm", grid, callers, 40 if quick else 150, seed)
+    outs = run_pool(run, exe, "calm", grid, callers, 40 if quick else 500, seed)
     # large values (beyond / straddling one read of the pool's reader), reply stream in pieces
     outs += run_pool(run, exe, "calm", [(2, 250), (10, 250)] if quick else [(1, 50), (2, 250), (10, 250), (10, 5000)], [10, 4] if quick else [10, 4, 16, 2],
-                     25 if quick else 80, seed + 7, sizes="big", tag="big/")
+                     25 if quick else 250, seed + 7, sizes="big", tag="big/")
     for p, out, mode in jobs:
         so, se = p.communicate(timeout=3000)
         run.handler_seq_done(p, so, se, out, mode)
